@@ -658,6 +658,7 @@ def r4_grouping(ctx):
     g = ctx.cfg(f)
     heads = [n for n in g.nodes if n.kind == 'for' and not n.dup and not any(fr.kind == 'loop' for fr in n.frames)]
     need(heads, 'C13.R4: loop over the grouped lines not found')
+    need(len(heads) == 1, 'C13.R4: the groups are walked by %d top-level loops (a collect phase and an act phase?): the single pass this rule reasons about was not recognised' % len(heads))
     head = heads[0]
     params = [a.arg for a in f.node.args.args]
     ok = is_name(head.ast.iter, params[1])
